@@ -9,7 +9,7 @@ open ClockBound ClockBound.SL
 /-- reachable reader views are consistent with the log, so the catch-up theorems apply to them -/
 theorem reachable_viewOk (a : Ann) (ver gen : Nat) (cells0 : List Nat)
     (s : Sys) (hr : Reachable a (Sys.init ver gen cells0) s) : ViewOk s.log s.r.view := by
-  sorry
+  exact (sysInv_reachable (sysInv_init ver gen cells0) hr).view
 
 /-- run a whole `snapshot()` call with fresh reads (every load returns the newest message) on a
     log that does not change during the call (no update in flight) -/
@@ -27,13 +27,17 @@ theorem catches_up (a : Ann) (log : Log) (r : Reader) (hidle : r.pc = .idle)
     (hne : r.cacheGen ≠ latest log .gen) (hview : ViewOk log r.view)
     (hcells : ∀ c, c < N → ∃ j, lastBefore log (.cell c) log.length = some j) :
     (freshCall a log r (N + 4)).2 = some (.ok ((List.range N).map (fun c => latest log (.cell c)))) := by
-  sorry
+  -- `hidle`, `hcells` are not needed: `Reader.call` overwrites the pc, and a cell without any
+  -- message reads as 0, which is also its `latest`
+  have _ := hidle; have _ := hcells
+  exact fresh_catches_up a log r hv hg he hne hview.2.2
 
 /-- the documented exception: the cached generation coincides with the live one ⇒ the cache is served -/
 theorem same_generation_serves_cache (a : Ann) (log : Log) (r : Reader) (hidle : r.pc = .idle)
     (hv : latest log .version ≠ 0) (heq : r.cacheGen = latest log .gen) (hview : ViewOk log r.view) :
     (freshCall a log r 2).2 = some (.ok r.cache) := by
-  sorry
+  have _ := hidle
+  exact fresh_same_generation a log r hv heq hview.2.2
 
 
 example : (freshCall {} (initBlock 1 4 [11,12,13,14,15,16,2]) {} (N + 4)).2 = some (.ok [11,12,13,14,15,16,2]) := by decide
